@@ -389,6 +389,11 @@ pub fn run(ctx: &Ctx, rep: &mut Report) {
                 for e in &got {
                     rep.event(&e.kind());
                 }
+                // Beyond the event the change itself calls for, an `approve` event restating what is
+                // left of an allowance is not excluded by the statement; it must be true, though
+                // (judged below, against the model after the operation).
+                let extra_approves: Vec<Ev> = got.iter().filter(|e| e.kind() == "approve" && !want_events.contains(e)).cloned().collect();
+                let got: Vec<Ev> = got.into_iter().filter(|e| !extra_approves.contains(e)).collect();
                 if got != want_events {
                     let kind = want_events[0].kind();
                     let what = if got.len() != 1 {
@@ -405,6 +410,35 @@ pub fn run(ctx: &Ctx, rep: &mut Report) {
                     break;
                 }
                 apply(&mut m);
+                let mut untrue = None;
+                for e in &extra_approves {
+                    rep.count("note:additional-approve-event");
+                    let idx = |v: &ScVal| -> Option<usize> {
+                        if let ScVal::Address(a) = v {
+                            cast.iter().position(|c| sc_addr(c) == *a)
+                        } else {
+                            None
+                        }
+                    };
+                    let stated: Option<i128> = match &e.data {
+                        ScVal::Vec(Some(items)) => items.first().and_then(|x| if let ScVal::I128(p) = x { Some(((p.hi as i128) << 64) | p.lo as i128) } else { None }),
+                        ScVal::I128(p) => Some(((p.hi as i128) << 64) | p.lo as i128),
+                        _ => None,
+                    };
+                    let actual = match (e.topics.get(1).and_then(idx), e.topics.get(2).and_then(idx)) {
+                        (Some(f), Some(sp)) => m.allowance(f, sp, u.seq()),
+                        _ => 0,
+                    };
+                    if let Some(st) = stated {
+                        if st != actual {
+                            untrue = Some(format!("{}: an additional approve event states an allowance of {} where it is {}", desc, st, actual));
+                        }
+                    }
+                }
+                if let Some(d) = untrue {
+                    rep.violation("token-event:approve:additional-event-untrue", d);
+                    break;
+                }
             }
             // entry points of the token this workload does not know, tried on cast member #4's
             // authorisation with what is at hand; whatever they do, the read-back judges
